@@ -648,6 +648,10 @@ pub struct TensorChain {
 
     /// Optional geometric membership manager for routing decisions.
     geometric_membership: Option<Arc<GeometricMembershipManager>>,
+
+    /// Serializes commits: the store pre-image, the applied writes, the state root and the
+    /// appended block (or the restored pre-image) of one commit form one step.
+    commit_lock: parking_lot::Mutex<()>,
 }
 
 /// Verification hook: a schedule point in `TensorChain::commit` between building the block
@@ -710,6 +714,7 @@ impl TensorChain {
             identity,
             validator_registry,
             geometric_membership: None,
+            commit_lock: parking_lot::Mutex::new(()),
         }
     }
 
@@ -752,6 +757,7 @@ impl TensorChain {
             identity,
             validator_registry,
             geometric_membership: None,
+            commit_lock: parking_lot::Mutex::new(()),
         }
     }
 
@@ -796,6 +802,7 @@ impl TensorChain {
             identity,
             validator_registry,
             geometric_membership: None,
+            commit_lock: parking_lot::Mutex::new(()),
         }
     }
 
@@ -841,6 +848,7 @@ impl TensorChain {
             identity,
             validator_registry,
             geometric_membership: None,
+            commit_lock: parking_lot::Mutex::new(()),
         }
     }
 
@@ -1029,6 +1037,11 @@ impl TensorChain {
                 self.config.max_txs_per_block
             )));
         }
+
+        // From the pre-image to the appended block (or the restored pre-image) a commit is one
+        // step: another commit in between would be wiped by a restore, or leak its writes into
+        // this block's state root.
+        let _commit_guard = self.commit_lock.lock();
 
         let snapshot = self
             .graph
@@ -1439,6 +1452,7 @@ impl TensorChain {
             identity,
             validator_registry,
             geometric_membership: None,
+            commit_lock: parking_lot::Mutex::new(()),
         }
     }
 
